@@ -353,6 +353,19 @@ RoundTrip(bs) ==
                                             !.timed_out = FALSE]]]]]
 
 (* rehydrate_with_ticks: waiters that had requirements but lost them are re-run *)
+(* (_ControlLoopRunner.__init__ puts these ticks into the tick buffer before anything else: the waiting step gets its     *)
+(*  input event again, addressed to it alone, and re-establishes the waiter with its requirements.  Steps in name order;  *)
+(*  the code also sorts a step's waiters by id -- kept in list order here, the scenarios have one such waiter per step)    *)
+RECURSIVE RehydrateFrom(_, _)
+RehydrateFrom(bs, i) ==
+  IF i > Len(StepNames) THEN <<>>
+  ELSE LET s == StepNames[i]
+           ws == bs.steps[s].waiters
+           need == SelectSeq(ws, LAMBDA w : w.has_reqs /\ w.reqs = <<>>)
+       IN [j \in 1..Len(need) |-> [k |-> "add", ty |-> need[j].ev_ty, uid |-> need[j].uid, evk |-> 0, target |-> s,
+                                    att |-> -1, first |-> -1, last_exc |-> "none", rc |-> NoRc]]
+          \o RehydrateFrom(bs, i + 1)
+Rehydrate(bs) == RehydrateFrom(bs, 1)
 EmptyState ==
   [running |-> FALSE,
    steps |-> [s \in StepSet |-> [queue |-> <<>>, ip |-> <<>>, coll |-> <<>>, waiters |-> <<>>]]]
